@@ -31,7 +31,7 @@ def prop(pid, harnesses, rule, explanation, assumptions, level_text, level_note,
 
 
 prop("C10",
-     [dict(name="C10", src="C10.cpp", deadline=dict(quick=60, thorough=600))],
+     [dict(name="C10", src="C10.cpp", deadline=dict(quick=60, thorough=480))],
      SCHED_RULE + " Alphabet: wait / arrive / arrive_and_wait, 1-2 ops per thread, 2-3 threads (4 thorough), "
      "count 1-3, total arrivals in [count, count+1]; programs that block under the specification are excluded.",
      "Real Latch.hpp under the controlled scheduler. Oracles: at every return of wait/arrive_and_wait the number "
@@ -47,7 +47,7 @@ prop("C10",
 
 
 prop("C09",
-     [dict(name="C09", src="C09.cpp", deadline=dict(quick=60, thorough=600))],
+     [dict(name="C09", src="C09.cpp", deadline=dict(quick=60, thorough=480))],
      SCHED_RULE + " Programs: N=2..3 (4 thorough) participants, G=2..3 (4) generations, every assignment of "
      "drop-outs (wait_and_drop as a thread's last call at any generation, at least one thread stays), with and "
      "without a scheduling point between consecutive calls; spurious wake-ups S<=2.",
@@ -63,7 +63,7 @@ prop("C09",
 
 
 prop("C11",
-     [dict(name="C11", src="C11.cpp", deadline=dict(quick=90, thorough=900))],
+     [dict(name="C11", src="C11.cpp", deadline=dict(quick=90, thorough=480))],
      SCHED_RULE + " Alphabet: activate, trigger, reset, wait, wait_for, waitActivation, wait_forActivation, "
      "isTriggered, isActive; initial state active/inactive; all 2-thread programs with <=2 ops per thread and all "
      "3-thread programs with 1 op per thread that contain a waiting operation (thorough adds 3 threads with one "
@@ -84,7 +84,7 @@ prop("C11",
 
 
 prop("C03",
-     [dict(name="C03", src="C03.cpp", deadline=dict(quick=90, thorough=900))],
+     [dict(name="C03", src="C03.cpp", deadline=dict(quick=90, thorough=480))],
      SCHED_RULE + " Programs: 1-2 (3 thorough) writers x 1-2 modify calls, 1-2 readers x 1-3 acquisitions through "
      "each of the four shared-acquisition forms, with and without overlapping handles, commuting and non-commuting "
      "functors.",
@@ -103,7 +103,7 @@ prop("C03",
 
 
 prop("C04",
-     [dict(name="C04", src="C04.cpp", deadline=dict(quick=90, thorough=900))],
+     [dict(name="C04", src="C04.cpp", deadline=dict(quick=90, thorough=480))],
      SCHED_RULE + " Programs: 1-2 (3 thorough) writers with every sequence of <=2 operations over {commit, cancel, "
      "move-construct + commit}, 0-2 readers taking 1-2 snapshots through each shared-acquisition form, kept across "
      "later commits or dropped.",
@@ -122,7 +122,7 @@ prop("C04",
 
 
 prop("C05",
-     [dict(name="C05", src="rcu.cpp", cxxflags=["-DMODE_C05"], deadline=dict(quick=100, thorough=900))],
+     [dict(name="C05", src="rcu.cpp", cxxflags=["-DMODE_C05"], deadline=dict(quick=100, thorough=480))],
      SCHED_RULE + " Programs: list prefilled with 2-3 elements; 1-2 traversers (read or write handle) pausing on "
      "each element, an eraser (1st / 2nd / last / all elements, double erase, erase+push), 0-2 short-lived handles "
      "whose release triggers reclamation, second erasers/pushers; weak-CAS failures and stale reads of the relaxed "
@@ -141,7 +141,7 @@ prop("C05",
 
 
 prop("C12",
-     [dict(name="C12", src="rcu.cpp", cxxflags=["-DMODE_C12"], deadline=dict(quick=100, thorough=900))],
+     [dict(name="C12", src="rcu.cpp", cxxflags=["-DMODE_C12"], deadline=dict(quick=100, thorough=480))],
      "Sequential part: every operation sequence up to depth 5 (6 thorough) over {push_front, push_back, "
      "emplace_front, emplace_back, begin, ++it, erase(it), erase(same it again), traverse} with fresh values on a "
      "real list, compared step by step (iterator position, iterator returned by erase, traversal contents) with a "
@@ -161,8 +161,8 @@ prop("C12",
      "DESIGN.md 4/C12")
 
 prop("C13",
-     [dict(name="C13", src="rcu.cpp", cxxflags=["-DMODE_C13"], deadline=dict(quick=100, thorough=900)),
-      dict(name="C13_string", src="rcu.cpp", cxxflags=["-DMODE_C13", "-DELEM_STRING"], deadline=dict(quick=60, thorough=600),
+     [dict(name="C13", src="rcu.cpp", cxxflags=["-DMODE_C13"], deadline=dict(quick=100, thorough=480)),
+      dict(name="C13_string", src="rcu.cpp", cxxflags=["-DMODE_C13", "-DELEM_STRING"], deadline=dict(quick=60, thorough=480),
            args=dict(quick=["--max-items", "3000"], thorough=[]))],
      "Sequential part: every well-formed history up to depth 6 (7 thorough) over {lock_read, lock_write, first "
      "access (begin), release, push_front, push_back, ++it, erase(it)} on an empty and on a 2-element list, ending "
@@ -204,7 +204,7 @@ prop("C14",
 LOCK_FLAGS = ["-fno-access-control"]
 
 prop("C01",
-     [dict(name="C01", src="locks.cpp", cxxflags=["-DMODE_C01"] + LOCK_FLAGS, deadline=dict(quick=100, thorough=900))],
+     [dict(name="C01", src="locks.cpp", cxxflags=["-DMODE_C01"] + LOCK_FLAGS, deadline=dict(quick=100, thorough=480))],
      SCHED_RULE + " Instances: guarded, guarded_opt(on) x {mutex, timed_mutex}; shared_guarded, "
      "shared_guarded_opt(on), ordered_guarded x {mutex, timed_mutex, shared_mutex, shared_timed_mutex}. Alphabet: "
      "lock+RMW, lock+RMW+unlock(), try_lock, try_lock_for, try_lock_until, load, store, operator=, modify, "
@@ -223,7 +223,7 @@ prop("C01",
      "DESIGN.md 4/C01")
 
 prop("C02",
-     [dict(name="C02", src="locks.cpp", cxxflags=["-DMODE_C02"] + LOCK_FLAGS, deadline=dict(quick=100, thorough=900),
+     [dict(name="C02", src="locks.cpp", cxxflags=["-DMODE_C02"] + LOCK_FLAGS, deadline=dict(quick=100, thorough=480),
            required_cover=2)],
      SCHED_RULE + " Instances: shared_guarded, shared_guarded_opt(on), ordered_guarded, deferred_guarded x the four "
      "mutex types. Alphabet: writer ops (lock+RMW, try_lock, try_lock_for, store, modify, modify_detach, "
@@ -241,7 +241,7 @@ prop("C02",
      "DESIGN.md 4/C02")
 
 prop("C15",
-     [dict(name="C15", src="locks.cpp", cxxflags=["-DMODE_C15"] + LOCK_FLAGS, deadline=dict(quick=100, thorough=900))],
+     [dict(name="C15", src="locks.cpp", cxxflags=["-DMODE_C15"] + LOCK_FLAGS, deadline=dict(quick=100, thorough=480))],
      "Sequential part: every operation sequence up to depth 3 (4 thorough) over the operations x values {0,1,2}, "
      "checked against a plain variable. Concurrent part: " + SCHED_RULE + " Instances: atomic_guarded (load, store, "
      "operator=, exchange, compare_exchange), guarded, guarded_opt (both flag values), ordered_guarded (load, "
@@ -260,7 +260,7 @@ prop("C15",
 
 
 prop("C08",
-     [dict(name="C08", src="C08.cpp", cxxflags=LOCK_FLAGS, deadline=dict(quick=100, thorough=900), required_cover=28)],
+     [dict(name="C08", src="C08.cpp", cxxflags=LOCK_FLAGS, deadline=dict(quick=100, thorough=480), required_cover=28)],
      SCHED_RULE + " Instances: guarded, guarded_opt (on/off) x {mutex, timed_mutex}; shared_guarded, "
      "shared_guarded_opt (on/off), ordered_guarded, deferred_guarded x the four mutex types. Programs: holder in "
      "{none, exclusive handle, shared handle, inside modify(), inside modify_detach()} that either keeps its handle "
@@ -286,7 +286,7 @@ prop("C08",
 
 
 prop("C06",
-     [dict(name="C06", src="C06.cpp", cxxflags=LOCK_FLAGS, deadline=dict(quick=100, thorough=900))],
+     [dict(name="C06", src="C06.cpp", cxxflags=LOCK_FLAGS, deadline=dict(quick=100, thorough=480))],
      SCHED_RULE + " Instances: deferred_guarded<Pair,M> for shared_timed_mutex and mutex (thorough: all four). "
      "Alphabet: modify_detach, modify_async (value / void / throwing), shared handle through each acquisition form "
      "released at once or held across the next 1-2 operations of the same thread, load. All 2-thread programs with "
@@ -307,7 +307,7 @@ prop("C06",
 
 
 prop("C16",
-     [dict(name="C16", src="C16.cpp", cxxflags=LOCK_FLAGS, deadline=dict(quick=100, thorough=900))],
+     [dict(name="C16", src="C16.cpp", cxxflags=LOCK_FLAGS, deadline=dict(quick=100, thorough=480))],
      "Sequential part: every operation sequence up to depth 5 (6 thorough) over {add(new), add(new, keep external "
      "owner), add(same object again), drop external owner, destroyObjects(), destroyObjects(0/10/250 ms), size()} "
      "on DelayedDestructor and DelayedDestructorSingleThread, followed by destruction of the container and release "
@@ -332,7 +332,7 @@ prop("C16",
 
 
 prop("C17",
-     [dict(name="C17", src="C17.cpp", cxxflags=LOCK_FLAGS, deadline=dict(quick=100, thorough=900))],
+     [dict(name="C17", src="C17.cpp", cxxflags=LOCK_FLAGS, deadline=dict(quick=100, thorough=480))],
      "Sequential part: every sequence up to depth 3 (4 thorough) over 19 mutating calls (addObject x3 names, "
      "addObject+type x3, addType x3, copyObject x3, removeObject(name) x3, removeObject(predicate never / id==1 / "
      "id==2 / always)); names include one longer than the small-string buffer; after every step the whole query "
@@ -353,7 +353,7 @@ prop("C17",
 
 
 prop("C18",
-     [dict(name="C18", src="C18.cpp", cxxflags=LOCK_FLAGS, deadline=dict(quick=100, thorough=900))],
+     [dict(name="C18", src="C18.cpp", cxxflags=LOCK_FLAGS, deadline=dict(quick=100, thorough=480))],
      "Sequential part: every call sequence up to depth 4 (5 thorough) over {getFuture(k), setDelayedValue(k,v) copy "
      "and move, fulfillAllPromises(v), finishedWithValue(k)} for keys {int 0, int 1, string \"x\"} (each key "
      "requested once) on DelayedObjects<int> and DelayedObjects<std::string> (heap-allocated values), followed by "
@@ -377,7 +377,7 @@ prop("C18",
 
 
 prop("C19",
-     [dict(name="C19", src="C19.cpp", cxxflags=LOCK_FLAGS, deadline=dict(quick=100, thorough=900), required_cover=2)],
+     [dict(name="C19", src="C19.cpp", cxxflags=LOCK_FLAGS, deadline=dict(quick=100, thorough=480), required_cover=2)],
      "Sequential part: every sequence up to depth 4 (5 thorough) over {create trigger in slot 0/1 on line L0, L1 "
      "(explicit), declared, indexed[0], indexed[1]; move-construct slot->slot; move-assign slot->slot; destroy "
      "slot (including moved-from objects); out-of-range index}; after every step a fresh detector on every line is "
@@ -401,7 +401,7 @@ prop("C19",
 
 
 prop("C20",
-     [dict(name="C20", src="C20.cpp", cxxflags=LOCK_FLAGS, deadline=dict(quick=100, thorough=900))],
+     [dict(name="C20", src="C20.cpp", cxxflags=LOCK_FLAGS, deadline=dict(quick=100, thorough=480))],
      "Fault enumeration layered on the schedule explorer: user code (modify/read functors - at entry and half-way "
      "through their update -, predicates, callbacks, the payload's copy constructor / assignment / comparison) "
      "calls may_throw(site); for each program the fault-free exploration first measures the number of calls per "
@@ -430,10 +430,10 @@ prop("C20",
 
 
 prop("C07",
-     [dict(name="C07pub", src="C07.cpp", cxxflags=LOCK_FLAGS, deadline=dict(quick=60, thorough=600), required_cover=2),
-      dict(name="C03", src="C03.cpp", deadline=dict(quick=60, thorough=600), args=dict(quick=["--rbound", "2"], thorough=["--rbound", "3"])),
-      dict(name="C19", src="C19.cpp", cxxflags=LOCK_FLAGS, deadline=dict(quick=60, thorough=600), args=dict(quick=["--rbound", "2"], thorough=["--rbound", "3"])),
-      dict(name="C05", src="rcu.cpp", cxxflags=["-DMODE_C05"], deadline=dict(quick=60, thorough=900),
+     [dict(name="C07pub", src="C07.cpp", cxxflags=LOCK_FLAGS, deadline=dict(quick=60, thorough=480), required_cover=2),
+      dict(name="C03", src="C03.cpp", deadline=dict(quick=60, thorough=480), args=dict(quick=["--rbound", "2"], thorough=["--rbound", "3"])),
+      dict(name="C19", src="C19.cpp", cxxflags=LOCK_FLAGS, deadline=dict(quick=60, thorough=480), args=dict(quick=["--rbound", "2"], thorough=["--rbound", "3"])),
+      dict(name="C05", src="rcu.cpp", cxxflags=["-DMODE_C05"], deadline=dict(quick=60, thorough=480),
            args=dict(quick=["--rbound", "2", "--max-items", "6"], thorough=["--rbound", "2"])),
       dict(name="C10", src="C10.cpp", deadline=dict(quick=30, thorough=300), args=dict(quick=["--max-items", "150"], thorough=[]))],
      SCHED_RULE + " Publication programs, one or more per protocol (guarded / shared_guarded / ordered_guarded "
